@@ -156,6 +156,17 @@ class Objects:
         raise EngineError("%s:L%d: method %s of %r outside the subset" % (ex.fnname, node.lineno, bm.name, obj))
 
     def index_opaque(self, ex, st, base, node):
+        if base.kind == "argwhere":
+            idx = base.get("idx")
+            sl = node.slice
+            if isinstance(sl, ast.Tuple) and len(sl.elts) == 2:
+                r, c = sl.elts
+                if isinstance(r, ast.Slice) and r.lower is None and r.upper is None:
+                    return idx                                # a[:, 0]
+                rv = ex.eval(r, st)
+                if isinstance(rv, int) and rv == 0:
+                    ex.oblige(st, ex.cmp_ge(idx.n, 1), "nonempty-argwhere", node, "no element matches")
+                    return idx.at(0)                          # a[0, 0]
         raise EngineError("%s:L%d: subscript of %r outside the subset" % (ex.fnname, node.lineno, base))
 
     def exec_with(self, ex, node, st):
